@@ -16,7 +16,7 @@ CONSTANTS
   Shapes = {"canon"}
   Limits = {100}
   NewaccVals = {TRUE, FALSE}
-  AsattVals = {TRUE, FALSE}
+  AsattVals = {"<none>", "1", "0", "junk"}
   LongVals = {FALSE}
   AllowSlow = TRUE
   DEV_NewaccNoAuth = FALSE
